@@ -73,7 +73,7 @@ class ReplaySession(object):
         rec2._vp_spy = spy2
         return rec2
 
-    def replay(self, p2, w, enabled, recorder=None):
+    def replay(self, p2, w, enabled, recorder=None, faults=None):
         """-> (Built of the replay, exception out of play() or None). Judges the cassette-immutability part."""
         from playback.tape_recorder import TapeRecorder
         ctx = self.ctx
@@ -86,7 +86,7 @@ class ReplaySession(object):
             rec2 = TapeRecorder(spy2)
         if enabled:
             rec2.enable_recording()
-        rep = Built(p2, rec2, World(1, poison=True), cls_name=self.live.cls.__name__)
+        rep = Built(p2, rec2, World(1, poison=True), cls_name=self.live.cls.__name__, faults=faults or {})
         before = self.box.snapshot()
         err = None
         try:
@@ -298,11 +298,16 @@ def lattice(ctx):
     ctx.note('lattice_rows', idx)
 
 
+def rep_decl_has_handler(prog, name):
+    return any(d['name'] == name and d.get('handler') for d in prog['outputs'])
+
+
 def random_pair(ctx, case_seed):
     from playback.exceptions import RecordingKeyError
     rng = random.Random(case_seed)
     kind = ('memory', 'file', 's3')[case_seed % 3]
-    prog = gen_program(rng, threads=False, nested=False, explicit_raise=0.05, max_in_decls=4)
+    # every fourth pair: the replayed operation makes some of its intercepted calls from worker threads it starts (and joins)
+    prog = gen_program(rng, threads=(case_seed % 4 == 0), nested=False, explicit_raise=0.05, max_in_decls=4)
     if not prog['inputs']:
         return
     p2 = clone(prog)
@@ -374,7 +379,16 @@ def random_pair(ctx, case_seed):
                 p_fail['inputs'] = [dict(d, fallback=None, run_original=False, substitute=('none',)) for d in p_fail['inputs']]
                 sess.replay(p_fail, w, enabled=rng.random() < 0.5, recorder=shared)
                 ctx.count('failing_replays_in_between')
-            rep, err = sess.replay(p2, w, enabled=rng.random() < 0.5, recorder=shared)
+            rfaults = {}
+            if rng.random() < 0.35:
+                # the data handler of an output fails while the REPLAYED call is captured (e.g. the file handler when the replayed
+                # code version no longer writes the file): the call is still answered from the recording, its body never runs
+                from vlib.faultruns import dry_trace
+                hpos = [pos for pos, op, dn in dry_trace(p2) if op == 'out' and rep_decl_has_handler(p2, dn)]
+                if hpos:
+                    rfaults[rng.choice(hpos)] = 'handler_raises'
+                    ctx.count('replays_with_a_failing_output_handler')
+            rep, err = sess.replay(p2, w, enabled=rng.random() < 0.5, recorder=shared, faults=rfaults)
             calls = rep.journal.calls()
             ctx.case(dict(desc, replay_no=r), nontrivial=bool(calls))
             counters2 = {}
